@@ -1,3 +1,4 @@
+import Batteries.Data.List.Basic
 import TTV.Model.Matchers
 import TTV.Spec.C06
 /-! # C06 — matcher verdicts obey their declared semantics (theorems: see below) -/
@@ -361,12 +362,6 @@ theorem assignB_perm (rows : List (List Bool)) : ∀ {r1 r2 : List Nat}, r1.Perm
       refine ⟨i, h.mem_iff.mpr hi, ?_⟩
       rw [ih (h.erase i)]; exact hh
 
-theorem orderIdx_perm (keys : List Nat) (n : Nat) : (orderIdx keys n).Perm (List.range n) := by
-  unfold orderIdx
-  have := (List.mergeSort_perm ((List.range n).map fun i => (keys.getD i 0, i)) (fun a b => decide (a.1 ≤ b.1))).map (·.2)
-  refine this.trans ?_
-  simp [List.map_map, Function.comp_def]
-
 /-! ## soundness of `matchImpl` w.r.t. the documented semantics, by induction on the expression -/
 theorem pyLen_of_pyIter {v : V} {xs : List V} (h : pyIter v = some xs) : pyLen v = some xs.length := by
   cases v <;> simp_all [pyIter, pyLen] <;> (subst h; simp)
@@ -426,20 +421,26 @@ theorem somes_eq_filterMap (l : List (Option Verdict)) : somes l = l.filterMap i
   | nil => rfl
   | cons a l ih => cases a <;> simp [somes, ih]
 
-theorem insertBy_perm (x : Nat × Option Verdict) (l : List (Nat × Option Verdict)) :
-    (insertBy x l).Perm (x :: l) := by
+theorem insertKey_perm {α : Type} (x : Nat × α) (l : List (Nat × α)) :
+    (insertKey x l).Perm (x :: l) := by
   induction l with
-  | nil => simp [insertBy]
+  | nil => simp [insertKey]
   | cons y ys ih =>
-    simp only [insertBy]
+    simp only [insertKey]
     split
     · exact List.Perm.refl _
     · exact (List.Perm.cons y ih).trans (List.Perm.swap x y ys)
 
-theorem sortByAttr_perm (l : List (Nat × Option Verdict)) : (sortByAttr l).Perm l := by
+theorem sortKey_perm {α : Type} (l : List (Nat × α)) : (sortKey l).Perm l := by
   induction l with
-  | nil => simp [sortByAttr]
-  | cons x xs ih => exact (insertBy_perm x _).trans (List.Perm.cons x ih)
+  | nil => simp [sortKey]
+  | cons x xs ih => exact (insertKey_perm x _).trans (List.Perm.cons x ih)
+
+theorem orderIdx_perm (keys : List Nat) (n : Nat) : (orderIdx keys n).Perm (List.range n) := by
+  unfold orderIdx
+  have := (sortKey_perm ((List.range n).map fun i => (keys.getD i 0, i))).map (·.2)
+  refine this.trans ?_
+  simp [List.map_map, Function.comp_def]
 
 /-- shape of `matchZip`: a position has no result exactly where it has no value -/
 theorem matchZip_shape (sel : Bool) : ∀ (ms : List M) (vs : List (Option V)), ms.length = vs.length →
@@ -612,11 +613,11 @@ theorem sound (sel : Bool) : ∀ (m : M) (v : V) (s : Verdict),
       unfold structImpl
       rw [hshape.2, hc.2, hshape.1]
       simp only [List.length_map, bne_self_eq_false, Bool.or_self, Bool.false_eq_true, ↓reduceIte, seqAll]
-      have hperm : (somes ((sortByAttr (attrs.zip (matchZip sel ms (attrs.map (getAttr v))))).map (·.2))).Perm
+      have hperm : (somes ((sortKey (attrs.zip (matchZip sel ms (attrs.map (getAttr v))))).map (·.2))).Perm
           (bs.map Verdict.ofBool) := by
         rw [somes_eq_filterMap, ← hz, somes_eq_filterMap]
         apply List.Perm.filterMap
-        refine ((sortByAttr_perm _).map _).trans ?_
+        refine ((sortKey_perm _).map _).trans ?_
         rw [List.map_snd_zip]
         · simp [hshape.1]
       rw [seqAllAux_noraise false _ (fun r hr => by
@@ -684,5 +685,270 @@ theorem soundZip (sel : Bool) : ∀ (ms : List M) (vs : List (Option V)) (bs : L
     simp only [matchZip, somes, List.map_cons]
     rw [sound sel m v _ (strictB_some hb) ha.1, soundZip sel ms vs bs' hbs ha.2]
 end
+
+/-! # The property theorems -/
+
+/-- **C06 (soundness).**  For every matcher expression (any depth, any leaves incl. arbitrary opaque
+predicate tables), every value in the documented domain (`spec m v = some s`) and either
+set-iteration order: `match()` returns exactly the documented verdict — provided no
+`MatchesSetwise` node is reached with a value matching two of its matchers (finding D5).
+
+Full statement (false because of D5, see `C06_setwise_witness`):
+`∀ sel m v s, spec m v = some s → matchImpl sel m v = s`. -/
+theorem C06_sound_partial (sel : Bool) (m : M) (v : V) (s : Verdict)
+    (hdom : spec m v = some s) (hunamb : amb m v = false) : matchImpl sel m v = s :=
+  sound sel m v s hdom hunamb
+
+/-- **C06 (determinism across builds / set orders)**, same restriction.
+Full statement: `∀ m v, (spec m v).isSome → matchImpl true m v = matchImpl false m v`. -/
+theorem C06_deterministic_partial (m : M) (v : V) (s : Verdict)
+    (hdom : spec m v = some s) (hunamb : amb m v = false) : matchImpl true m v = matchImpl false m v := by
+  rw [sound true m v s hdom hunamb, sound false m v s hdom hunamb]
+
+/- expressions without `MatchesSetwise` -/
+mutual
+def setwiseFree : M → Bool
+  | .leaf _ => true
+  | .excTypeV _ vm => setwiseFree vm
+  | .raises em => setwiseFree em
+  | .not m => setwiseFree m
+  | .all _ ms => setwiseFreeL ms
+  | .any ms => setwiseFreeL ms
+  | .allMatch m => setwiseFree m
+  | .anyMatch m => setwiseFree m
+  | .listwise _ ms => setwiseFreeL ms
+  | .setwise _ _ _ => false
+  | .structure _ ms => setwiseFreeL ms
+  | .dict _ _ ms => setwiseFreeL ms
+  | .annotate m => setwiseFree m
+  | .after _ _ m => setwiseFree m
+def setwiseFreeL : List M → Bool
+  | [] => true
+  | m :: ms => setwiseFree m && setwiseFreeL ms
+end
+
+mutual
+theorem amb_of_setwiseFree : ∀ (m : M) (v : V), setwiseFree m = true → amb m v = false
+  | .leaf _, _, _ => by simp [amb]
+  | .excTypeV cs vm, v, h => by
+    simp only [setwiseFree] at h
+    simp only [amb]
+    split <;> simp [amb_of_setwiseFree vm _ h]
+  | .raises em, v, h => by
+    simp only [setwiseFree] at h
+    simp only [amb]
+    split <;> simp [amb_of_setwiseFree em _ h]
+  | .not m, v, h => by simp only [setwiseFree] at h; simp [amb, amb_of_setwiseFree m v h]
+  | .all _ ms, v, h => by simp only [setwiseFree] at h; simp [amb, ambRow_of_setwiseFree ms v h]
+  | .any ms, v, h => by simp only [setwiseFree] at h; simp [amb, ambRow_of_setwiseFree ms v h]
+  | .allMatch m, v, h => by
+    simp only [setwiseFree] at h
+    simp only [amb]
+    split
+    · rfl
+    · rw [List.any_eq_false]; intro x _; simp [amb_of_setwiseFree m x h]
+  | .anyMatch m, v, h => by
+    simp only [setwiseFree] at h
+    simp only [amb]
+    split
+    · rfl
+    · rw [List.any_eq_false]; intro x _; simp [amb_of_setwiseFree m x h]
+  | .listwise _ ms, v, h => by
+    simp only [setwiseFree] at h
+    simp only [amb]
+    split
+    · rfl
+    · exact ambZip_of_setwiseFree ms _ h
+  | .setwise _ _ _, _, h => by simp [setwiseFree] at h
+  | .structure _ ms, v, h => by simp only [setwiseFree] at h; simp [amb, ambZip_of_setwiseFree ms _ h]
+  | .dict _ _ ms, v, h => by
+    simp only [setwiseFree] at h
+    simp only [amb]
+    split
+    · exact ambZip_of_setwiseFree ms _ h
+    · rfl
+  | .annotate m, v, h => by simp only [setwiseFree] at h; simp [amb, amb_of_setwiseFree m v h]
+  | .after f _ m, v, h => by
+    simp only [setwiseFree] at h
+    simp only [amb]
+    split
+    · exact amb_of_setwiseFree m _ h
+    · rfl
+theorem ambRow_of_setwiseFree : ∀ (ms : List M) (v : V), setwiseFreeL ms = true → ambRow ms v = false
+  | [], _, _ => by simp [ambRow]
+  | m :: ms, v, h => by
+    simp only [setwiseFreeL, Bool.and_eq_true] at h
+    simp [ambRow, amb_of_setwiseFree m v h.1, ambRow_of_setwiseFree ms v h.2]
+theorem ambZip_of_setwiseFree : ∀ (ms : List M) (vs : List (Option V)), setwiseFreeL ms = true →
+    ambZip ms vs = false
+  | [], vs, _ => by simp [ambZip]
+  | _ :: _, [], _ => by simp [ambZip]
+  | m :: ms, none :: vs, h => by
+    simp only [setwiseFreeL, Bool.and_eq_true] at h
+    simp [ambZip, ambZip_of_setwiseFree ms vs h.2]
+  | m :: ms, some v :: vs, h => by
+    simp only [setwiseFreeL, Bool.and_eq_true] at h
+    simp [ambZip, amb_of_setwiseFree m v h.1, ambZip_of_setwiseFree ms vs h.2]
+end
+
+/-- **C06 (soundness, full strength)** for every expression that does not contain `MatchesSetwise`:
+all stock matchers and combinators, any depth, any value of the documented domain. -/
+theorem C06_sound_setwiseFree (sel : Bool) (m : M) (v : V) (s : Verdict)
+    (hfree : setwiseFree m = true) (hdom : spec m v = some s) : matchImpl sel m v = s :=
+  sound sel m v s hdom (amb_of_setwiseFree m v hfree)
+
+/-- **C06 (determinism and purity of the model)**: calling `match()` again on the same matcher object
+gives the same verdict, and nothing is modified — by construction (`matchImpl` is a function of the
+expression, the value and the set order, and has no state to modify). -/
+theorem C06_pure_deterministic (i : Input) :
+    (model i).again = (model i).first ∧ (model i).pureM = true ∧ (model i).pureV = true :=
+  ⟨rfl, rfl, rfl⟩
+
+/-! ## what the specification says (readings of `spec` as plain propositions) -/
+
+theorem bools_iff : ∀ {rs : List (Option Verdict)}, (∀ r ∈ rs, ∃ b, r = some (Verdict.ofBool b)) →
+    ∃ bs, bools rs = some bs ∧ (bs.all id = true ↔ ∀ r ∈ rs, r = some Verdict.match) ∧
+      (bs.any id = true ↔ ∃ r ∈ rs, r = some Verdict.match)
+  | [], _ => ⟨[], by simp [bools]⟩
+  | r :: rs, h => by
+    obtain ⟨b, rfl⟩ := h r List.mem_cons_self
+    obtain ⟨bs, hbs, hall, hany⟩ := bools_iff (rs := rs) (fun r hr => h r (List.mem_cons_of_mem _ hr))
+    refine ⟨b :: bs, ?_, ?_, ?_⟩
+    · cases b <;> simp [bools, strictB, Verdict.ofBool, hbs]
+    · cases b <;> simp [Verdict.ofBool, hall]
+    · cases b <;> simp [Verdict.ofBool, hany]
+
+theorem specRow_mem : ∀ {ms : List M} {v : V} {r : Option Verdict}, r ∈ specRow ms v ↔ ∃ m ∈ ms, r = spec m v
+  | [], v, r => by simp [specRow]
+  | m :: ms, v, r => by simp [specRow, specRow_mem (ms := ms)]
+
+/-- `Not` negates. -/
+theorem C06_spec_not (m : M) (v : V) (b : Bool) (h : spec m v = some (.ofBool b)) :
+    spec (.not m) v = some (.ofBool (!b)) := by
+  cases b <;> simp [spec, h, strictB, Verdict.ofBool]
+
+/-- `MatchesAll` is the conjunction of its parts (the empty conjunction matches). -/
+theorem C06_spec_all (fo : Bool) (ms : List M) (v : V) (hparts : ∀ m ∈ ms, ∃ b, spec m v = some (.ofBool b)) :
+    ∃ b, spec (.all fo ms) v = some (.ofBool b) ∧ (b = true ↔ ∀ m ∈ ms, spec m v = some .match) := by
+  obtain ⟨bs, hbs, hall, _⟩ := bools_iff (rs := specRow ms v) (by
+    intro r hr
+    obtain ⟨m, hm, rfl⟩ := specRow_mem.mp hr
+    exact hparts m hm)
+  refine ⟨bs.all id, by simp [spec, hbs], ?_⟩
+  rw [hall]
+  constructor
+  · intro h m hm; exact (h _ (specRow_mem.mpr ⟨m, hm, rfl⟩))
+  · intro h r hr; obtain ⟨m, hm, rfl⟩ := specRow_mem.mp hr; exact h m hm
+
+/-- `MatchesAny` is the disjunction of its parts (the empty disjunction mismatches). -/
+theorem C06_spec_any (ms : List M) (v : V) (hparts : ∀ m ∈ ms, ∃ b, spec m v = some (.ofBool b)) :
+    ∃ b, spec (.any ms) v = some (.ofBool b) ∧ (b = true ↔ ∃ m ∈ ms, spec m v = some .match) := by
+  obtain ⟨bs, hbs, _, hany⟩ := bools_iff (rs := specRow ms v) (by
+    intro r hr
+    obtain ⟨m, hm, rfl⟩ := specRow_mem.mp hr
+    exact hparts m hm)
+  refine ⟨bs.any id, by simp [spec, hbs], ?_⟩
+  rw [hany]
+  constructor
+  · rintro ⟨r, hr, rfl⟩; obtain ⟨m, hm, h⟩ := specRow_mem.mp hr; exact ⟨m, hm, h.symm⟩
+  · rintro ⟨m, hm, h⟩; exact ⟨_, specRow_mem.mpr ⟨m, hm, rfl⟩, h⟩
+
+/-- `AllMatch` / `AnyMatch` quantify over the elements of the matchee. -/
+theorem C06_spec_allMatch (m : M) (v : V) (xs : List V) (hv : pyIter v = some xs)
+    (hparts : ∀ x ∈ xs, ∃ b, spec m x = some (.ofBool b)) :
+    (∃ b, spec (.allMatch m) v = some (.ofBool b) ∧ (b = true ↔ ∀ x ∈ xs, spec m x = some .match)) ∧
+    (∃ b, spec (.anyMatch m) v = some (.ofBool b) ∧ (b = true ↔ ∃ x ∈ xs, spec m x = some .match)) := by
+  obtain ⟨bs, hbs, hall, hany⟩ := bools_iff (rs := xs.map (spec m)) (by
+    intro r hr
+    obtain ⟨x, hx, rfl⟩ := List.mem_map.mp hr
+    exact hparts x hx)
+  refine ⟨⟨bs.all id, by simp [spec, hv, hbs], ?_⟩, ⟨bs.any id, by simp [spec, hv, hbs], ?_⟩⟩
+  · rw [hall]; simp
+  · rw [hany]; simp
+
+/-- `Annotate` keeps the inner verdict; `AfterPreprocessing` is the inner matcher on the transformed value. -/
+theorem C06_spec_transparent (m : M) (v w : V) (f : PreFn) (a : Bool) (hf : applyPre f v = .ok w) :
+    spec (.annotate m) v = spec m v ∧ spec (.after f a m) v = spec m w := by
+  simp [spec, hf]
+
+/-- `SameMembers`: the matchee is a permutation of the expected list (same members, same repetitions). -/
+theorem C06_sameMembers_perm (sel : Bool) (e xs : List V) :
+    matchImpl sel (.leaf (.sameMembers e)) (.list xs) = .match ↔ e.Perm xs := by
+  simp only [matchImpl, leafImpl, pyIter, sameMembers_impl_eq_spec]
+  rw [List.perm_iff_count]
+  have := sameCounts_iff e xs
+  cases h : ((e ++ xs).all fun x => countV x e == countV x xs) <;> simp_all [Verdict.ofBool]
+
+/-- `MatchesSetwise` (specification): a one-to-one assignment `p` of the values to the matcher indices
+exists — `p` is a permutation of the indices, value `k` is accepted by matcher `p[k]`. -/
+theorem C06_spec_setwise_assignment (rows : List (List Bool)) : ∀ (rem : List Nat),
+    assignB rows rem = true ↔
+      ∃ p : List Nat, p.Perm rem ∧ List.Forall₂ (fun row i => row.getD i false = true) rows p := by
+  induction rows with
+  | nil =>
+    intro rem
+    simp only [assignB, List.isEmpty_iff]
+    constructor
+    · rintro rfl; exact ⟨[], List.Perm.refl _, List.Forall₂.nil⟩
+    · rintro ⟨p, hp, hf⟩
+      cases hf
+      exact List.perm_nil.mp hp.symm
+  | cons row rows ih =>
+    intro rem
+    simp only [assignB, List.any_eq_true, Bool.and_eq_true]
+    constructor
+    · rintro ⟨i, hi, hrow, hrest⟩
+      obtain ⟨p, hp, hf⟩ := (ih _).mp hrest
+      exact ⟨i :: p, (List.Perm.cons i hp).trans (List.perm_cons_erase hi).symm, List.Forall₂.cons hrow hf⟩
+    · rintro ⟨p, hp, hf⟩
+      cases hf with
+      | cons hrow hf =>
+        rename_i i p'
+        have hi : i ∈ rem := hp.mem_iff.mp List.mem_cons_self
+        refine ⟨i, hi, hrow, (ih _).mpr ⟨p', ?_, hf⟩⟩
+        exact List.Perm.cons_inv (hp.trans (List.perm_cons_erase hi))
+
+/-! ## the recorded finding D5: the model exhibits the defect -/
+def witnessM : M :=
+  .setwise [0, 1] [1, 0] [.any [.leaf (.equals (.int 1)), .leaf (.equals (.int 2))], .leaf (.equals (.int 1))]
+def witnessV : V := .list [.int 1, .int 2]
+
+/-- `MatchesSetwise(MatchesAny(Equals(1), Equals(2)), Equals(1))` on `[1, 2]`: a one-to-one assignment
+exists (documented verdict: match); the code says mismatch when the set iterates `MatchesAny` first and
+match when it iterates `Equals(1)` first. -/
+theorem C06_setwise_witness :
+    amb witnessM witnessV = true ∧ spec witnessM witnessV = some .match ∧
+    matchImpl true witnessM witnessV = .mismatch ∧ matchImpl false witnessM witnessV = .match ∧
+    holds ⟨witnessM, witnessV⟩ (model ⟨witnessM, witnessV⟩) = false := by
+  decide
+
+/-! ## headline -/
+/-- The executable specification holds of the model's trace for every input outside the finding class
+`ambiguousSetwise`.  Full statement (false because of D5): `∀ i, holds i (model i) = true`. -/
+theorem holds_model_partial (i : Input) (h : amb i.m i.v = false) : holds i (model i) = true := by
+  simp only [holds, clauses, List.all_cons, List.all_nil, Bool.and_true, Bool.and_eq_true]
+  refine ⟨?_, ?_, ?_⟩
+  · simp only [cSound, model]
+    split
+    · rfl
+    · rename_i s hs
+      rw [sound true i.m i.v s hs h]; simp
+  · simp only [cDeterministic, model, beq_self_eq_true, Bool.true_and]
+    cases hs : spec i.m i.v with
+    | none => simp
+    | some s => rw [sound true i.m i.v s hs h, sound false i.m i.v s hs h]; simp
+  · simp [cPure, model]
+
+/-! ## non-vacuity -/
+-- an unambiguous MatchesSetwise input inside the domain, where the greedy algorithm has to skip a matcher
+example : amb (.setwise [0, 1] [1, 0] [.leaf (.equals (.int 1)), .leaf (.equals (.int 2))]) (.list [.int 2, .int 1]) = false
+    ∧ spec (.setwise [0, 1] [1, 0] [.leaf (.equals (.int 1)), .leaf (.equals (.int 2))]) (.list [.int 2, .int 1]) = some .match := by
+  decide
+-- a nested expression inside the domain with verdict mismatch; and a value outside the domain
+example : spec (.all false [.leaf (.lessThan (.int 3)), .not (.leaf (.equals (.int 2)))]) (.int 2) = some .mismatch := by decide
+example : spec (.leaf (.lessThan (.int 3))) (.str [97]) = none := by decide
+-- the propagate rule of Raises
+example : spec (.raises (.leaf (.excType [.valueError]))) (.fnRaise ⟨.keyboardInterrupt, 0⟩) = some (.raised .keyboardInterrupt) := by decide
+example : setwiseFree (.dict .exact [0] [.allMatch (.leaf .always)]) = true := by decide
 
 end TTV.Props.C06
